@@ -60,18 +60,18 @@ func c20Exec(run *ev.Run, c ev.Case) {
 		run.Violation("C20:"+key, what, c, detail)
 	}
 	examples := map[string]string{
-		"bcd": "Get Device ID byte 4 = 0x37 -> minor revision 37; SDR version byte 0x51 -> 15",
-		"analog": "format 1 (1's complement) raw 0x80 -> -127, raw 0xff -> 0; format 2 raw 0x80 -> -128",
-		"tenbit": "M raw 0x200 (bytes 20,21 = 00,80|3f) -> -512",
-		"fourbit": "R exponent nibble 0x8 -> -8",
+		"bcd":          "Get Device ID byte 4 = 0x37 -> minor revision 37; SDR version byte 0x51 -> 15",
+		"analog":       "format 1 (1's complement) raw 0x80 -> -127, raw 0xff -> 0; format 2 raw 0x80 -> -128",
+		"tenbit":       "M raw 0x200 (bytes 20,21 = 00,80|3f) -> -512",
+		"fourbit":      "R exponent nibble 0x8 -> -8",
 		"checksum-ser": "header 20 18 -> checksum 0xc8",
 		"checksum-dec": "response message with checksum 2 replaced by each of 256 values: only the correct one decodes",
-		"bcdplus": "nibbles a,b,c,d,e,f -> \" -.:,_\"",
-		"sixbit": "3 bytes 29 dc a6 -> \"IPMI\"",
-		"latin1": "byte 0xe9 -> U+00E9",
-		"period-dec": "0x41 -> 1m0s, 0xc3 -> 72h",
-		"period-enc": "61s -> 0x41, 86400s -> 0xc1, 64 days -> 0xff",
-		"instance": "0x5f system-relative, 0x60 device-relative",
+		"bcdplus":      "nibbles a,b,c,d,e,f -> \" -.:,_\"",
+		"sixbit":       "3 bytes 29 dc a6 -> \"IPMI\"",
+		"latin1":       "byte 0xe9 -> U+00E9",
+		"period-dec":   "0x41 -> 1m0s, 0xc3 -> 72h",
+		"period-enc":   "61s -> 0x41, 86400s -> 0xc1, 64 days -> 0xff",
+		"instance":     "0x5f system-relative, 0x60 device-relative",
 	}
 	run.Sample(c.Kind, map[string]any{"domain": c.Kind, "example": examples[c.Kind], "params": string(c.P)})
 	switch c.Kind {
